@@ -83,6 +83,7 @@ fn main() {
             }
             match doc["engine"].as_str() {
                 Some("c06") => c06::replay(&doc),
+                Some("c06-proc") => c06::replay_proc(&doc),
                 Some("c10") => c10::replay(&doc),
                 Some("c16") => c16::replay(&doc),
                 _ => {
@@ -139,6 +140,24 @@ fn main() {
                 Err(e) => println!("ERROR {e}"),
             }
             0
+        }
+        Some("c06-proc-job") => {
+            let path = args.get(1).cloned().unwrap_or_else(|| usage());
+            let warm = args.get(2).map(|s| s == "1").unwrap_or(false);
+            let text = std::fs::read_to_string(&path).unwrap_or_default();
+            match serde_json::from_str::<serde_json::Value>(&text)
+                .map_err(|e| e.to_string())
+                .and_then(|doc| c06::proc_job(&doc, warm))
+            {
+                Ok(d) => {
+                    println!("{d}");
+                    0
+                }
+                Err(e) => {
+                    eprintln!("HARNESS ERROR: c06-proc-job: {e}");
+                    2
+                }
+            }
         }
         Some("c06-exec") => {
             let lo: u64 = args.get(1).and_then(|s| s.parse().ok()).unwrap_or_else(|| usage());
